@@ -6,6 +6,7 @@
 #include <cmath>
 #include <cstring>
 #include <iostream>
+#include <fstream>
 #include <sstream>
 
 #include "corecel/data/CollectionStateStore.hh"
@@ -20,6 +21,9 @@
 #include "celeritas/field/MakeMagFieldPropagator.hh"
 #include "celeritas/field/detail/FieldUtils.hh"
 #include "celeritas/field/MakeMagFieldPropagator.hh"
+#include "celeritas/field/RZMapField.hh"
+#include "celeritas/field/RZMapFieldInput.hh"
+#include "celeritas/field/RZMapFieldParams.hh"
 #include "celeritas/field/RungeKuttaStepper.hh"
 #include "celeritas/field/UniformField.hh"
 #include "celeritas/field/ZHelixStepper.hh"
@@ -109,6 +113,17 @@ Helix make_helix(double const pos[3], double const dir[3], double const bfield[3
     h.cross[2] = h.perp[0] * b[1] - h.perp[1] * b[0];
     h.k = k_per_b * bn;
     return h;
+}
+
+std::shared_ptr<RZMapFieldParams> const& cms_field_map()
+{
+    static std::shared_ptr<RZMapFieldParams> p = [] {
+        RZMapFieldInput inp;
+        std::ifstream f(std::string(VERIF_REPO_DIR) + "/test/celeritas/data/cms-tiny.field.json");
+        f >> inp;
+        return std::make_shared<RZMapFieldParams>(inp);
+    }();
+    return p;
 }
 
 // The propagator's view of the navigator: forwards to the real OrangeTrackView
@@ -226,6 +241,18 @@ class WorldG8 : public World
             b[2] = rp.coin(0.5) ? 1 : -1;
         }
         plan["field"] = {b[0] * mag, b[1] * mag, b[2] * mag};
+        // one plan in eight: the CMS field map (r-z grid) on the simple-cms geometry
+        bool rzmap = rp.coin(0.125);
+        if (rzmap)
+        {
+            plan["field_kind"] = "rzmap";
+            json g;
+            g["kind"] = "file";
+            g["file"] = std::string(VERIF_REPO_DIR) + "/test/geocel/data/simple-cms.org.json";
+            plan["geometry"] = g;
+            scale_hint = 2000;
+            zfield = false;
+        }
         static char const* const steppers[] = {"dormand_prince", "runge_kutta", "zhelix"};
         std::string st = steppers[rp.below(zfield ? 3 : 2)];
         plan["stepper"] = st;
@@ -322,6 +349,7 @@ class WorldG8 : public World
             double bnat[3] = {fv[0] * units::tesla, fv[1] * units::tesla, fv[2] * units::tesla};
             Real3 field{bnat[0], bnat[1], bnat[2]};
             std::string stepper = plan_in.value("stepper", "dormand_prince");
+            bool rzmap = plan_in.value("field_kind", std::string("uniform")) == "rzmap";
 
             if (char const* pr = std::getenv("VSIM_PROBE"))
             {
@@ -460,6 +488,13 @@ class WorldG8 : public World
                 ld k_per_b = q_native / p_native;
                 Helix hx = make_helix(pos0, dir0, bnat, k_per_b);
                 ld radius = 1 / std::fabs(hx.k);
+                if (rzmap)
+                {
+                    // local gyroradius at the start point decides the step scale
+                    Real3 b0 = RZMapField{cms_field_map()->host_ref()}(geo.pos());
+                    ld bm = std::sqrt((ld)b0[0] * b0[0] + (ld)b0[1] * b0[1] + (ld)b0[2] * b0[2]);
+                    radius = bm > 0 ? 1 / (std::fabs(k_per_b) * bm) : 1e30L;
+                }
                 // requested step: from below the minimum substep to many turns
                 double step;
                 {
@@ -469,7 +504,8 @@ class WorldG8 : public World
                     else if (v < 0.5)
                         step = scale * std::exp(std::log(1e-4) + u[1].get<double>() * std::log(1e4));
                     else
-                        step = (double)radius * std::exp(std::log(1e-2) + u[1].get<double>() * std::log(1e3));
+                        step = (double)std::min<ld>(radius, 1e3 * scale)
+                               * std::exp(std::log(1e-2) + u[1].get<double>() * std::log(1e3));
                     step = std::min(step, 50 * scale);
                 }
                 // reference start volume (slightly ahead if on a boundary)
@@ -518,7 +554,19 @@ class WorldG8 : public World
                 Propagation res;
                 std::vector<GeoEvent> gev;
                 GeoProxy gproxy(geo, gev);
-                if (stepper == "dormand_prince")
+                if (rzmap && stepper == "dormand_prince")
+                {
+                    auto prop = make_mag_field_propagator<DormandPrinceStepper>(
+                        RZMapField{cms_field_map()->host_ref()}, fopt, par, gproxy);
+                    res = prop(step);
+                }
+                else if (rzmap)
+                {
+                    auto prop = make_mag_field_propagator<RungeKuttaStepper>(
+                        RZMapField{cms_field_map()->host_ref()}, fopt, par, gproxy);
+                    res = prop(step);
+                }
+                else if (stepper == "dormand_prince")
                 {
                     auto prop = make_mag_field_propagator<DormandPrinceStepper>(
                         UniformField{field}, fopt, par, gproxy);
@@ -555,6 +603,12 @@ class WorldG8 : public World
                         std::cerr << "\n";
                     }
                 }
+                // reference trajectory: analytic helix, or the integrated map curve
+                // The accuracy clause of the property is stated for uniform fields
+                // only: in the field map there is no reference trajectory, and the
+                // checks that need one (on-helix, path up to the hit) are not made.
+                bool have_curve = !rzmap;
+                auto curve_pos = [&](ld sq, ld out[3]) { hx.pos(sq, out); };
                 // largest phase advance of one accepted substep, from the axial
                 // progress between the positions the propagator moved to
                 double max_phase = 0;
@@ -562,7 +616,7 @@ class WorldG8 : public World
                     ld bn = std::sqrt((ld)bnat[0] * bnat[0] + (ld)bnat[1] * bnat[1]
                                       + (ld)bnat[2] * bnat[2]);
                     ld cosb = (dir0[0] * bnat[0] + dir0[1] * bnat[1] + dir0[2] * bnat[2]) / bn;
-                    if (std::fabs(cosb) > 1e-3)
+                    if (std::fabs(cosb) > 1e-3 && !rzmap)
                     {
                         ld prev = 0;
                         for (auto const& e : gev)
@@ -680,7 +734,13 @@ class WorldG8 : public World
                         if (sj < 0)
                             continue;
                         ld y[3];
-                        hx.pos(sj, y);
+                        if (!have_curve)
+                        {
+                            best = 0;
+                            break;
+                        }
+                        rr.count("helix_checks");
+                        curve_pos(sj, y);
                         ld dd = std::sqrt((y[0] - pos1[0]) * (y[0] - pos1[0])
                                           + (y[1] - pos1[1]) * (y[1] - pos1[1])
                                           + (y[2] - pos1[2]) * (y[2] - pos1[2]));
@@ -717,14 +777,13 @@ class WorldG8 : public World
                         ld hchord = std::sqrt(8 * rperp * dc) + ms;
                         exhausts = (ld)step > hchord * std::ldexp(1.0L, (int)fopt.max_nsteps - 2);
                     }
-                    rr.count("helix_checks");
                     double rel = (double)(best / tolp);
                     bool zh = cl[s].general_zhelix;
                     if (!zh && !large_phase && !exhausts)
                         rr.stats["max_helix_error_over_tolerance"]
                             = std::max(rr.stats.value("max_helix_error_over_tolerance", 0.0), rel);
                     // final direction: the helix tangent at the travelled length
-                    if (!zh && !large_phase && !exhausts && !bump)
+                    if (!zh && !large_phase && !exhausts && !bump && !rzmap)
                     {
                         ld t[3];
                         hx.dir(s0, t);
@@ -805,7 +864,7 @@ class WorldG8 : public World
                         }
                         // the curved path up to the hit stays in the start volume,
                         // up to incursions within the chord tolerance
-                        if (start.valid && !off_helix)
+                        if (start.valid && !off_helix && have_curve && true)
                         {
                             int nsamp = 24;
                             for (int j = 1; j < nsamp; ++j)
@@ -814,7 +873,7 @@ class WorldG8 : public World
                                 if (sj > (ld)res.distance - margin)
                                     break;
                                 ld y[3];
-                                hx.pos(sj, y);
+                                curve_pos(sj, y);
                                 RefPath pj = ref.locate(y);
                                 if (pj.valid && pj != start && ref.clearance(y, pj) > margin)
                                 {
@@ -889,6 +948,7 @@ class WorldG8 : public World
             rr.count("outcome:full_step", nfull);
             rr.count("outcome:bump", nbump);
             rr.count("stepper:" + stepper);
+            rr.count(rzmap ? "field:rz_map" : "field:uniform");
             json s;
             s["geometry"] = plan_in["geometry"];
             s["field_T"] = plan_in["field"];
@@ -967,10 +1027,11 @@ class WorldG8 : public World
             {"real",
              {"FieldPropagator", "FieldDriver", "DormandPrinceStepper", "RungeKuttaStepper",
               "ZHelixStepper", "MagFieldEquation", "UniformField", "UniformZField",
+              "RZMapField + RZMapFieldParams (cms-tiny.field.json on simple-cms)",
               "FieldDriverOptions/validate_input", "OrangeTrackView and trackers",
               "ParticleTrackView"}},
             {"stub", {"analytic helix", "RefGeo", "geometry generator"}},
-            {"not_run", {"RZMapField (no field map data generated)", "AlongStepUniformMsc path (world T)"}}};
+            {"not_run", {"AlongStepUniformMsc / AlongStepRZMapFieldMsc actions (field path of world T uses the uniform-field along-step)"}}};
         d["assumptions"]
             = {"accuracy model of the driver: per integration step position error <= epsilon_rel_max*h "
                "and relative momentum error <= epsilon_rel_max, accumulated over s/sqrt(8 R "
